@@ -226,6 +226,11 @@ func c19SoloTranscripts(sc c19Scenario, slack int) [][]string {
 	return out
 }
 
+// c19SetFsYield is set by the overlay build (c19_overlay.go): it installs a scheduling point in front of
+// every mutating file operation of db/fs. Without the overlay the store is only pre-empted between
+// whole Put/Get calls.
+var c19SetFsYield func(func())
+
 // c19Exec runs one schedule.
 func c19Exec(sc c19Scenario, slack int, x *mc.Chooser) (sig, msg string, trace []int, preempted bool) {
 	a := sc.Build(slack)
@@ -240,6 +245,10 @@ func c19Exec(sc c19Scenario, slack int, x *mc.Chooser) (sig, msg string, trace [
 	y := func(l string) { s.Yield(l) }
 	vm.VerifPoint = func() { s.Yield("instr") }
 	defer func() { vm.VerifPoint = nil }()
+	if c19SetFsYield != nil {
+		c19SetFsYield(func() { s.Yield("fsop") })
+		defer c19SetFsYield(nil)
+	}
 	trs := make([][]string, len(sc.Sessions))
 	var bodies []func()
 	for i, ins := range sc.Sessions {
@@ -349,6 +358,11 @@ func c19Run(c *mc.Ctx) {
 		reps = 300
 	}
 	c.Note("preemption_bound", fmt.Sprint(bound))
+	if c19SetFsYield != nil {
+		c.Note("file_operation_scheduling_points", "yes (db/fs built against the os shim: create/write/close/rename of a save are separate scheduling points)")
+	} else {
+		c.Note("file_operation_scheduling_points", "no (overlay build not available: the store is pre-empted between whole Put/Get calls only)")
+	}
 	c.Note("scenarios", fmt.Sprint(len(c19Scenarios)))
 	// the race pass (sampling complement)
 	if c.Mine() {
